@@ -120,3 +120,34 @@ func TestRegressIndexTimeBoundary(t *testing.T) {
 		})
 	}
 }
+
+// The CLI's default local work dir (./.datamon-index) is the same for every purge command. docs/purge.md:
+// "running again the command will scratch the existing index and create an updated version". With an index of
+// some ten thousand keys part of the local KV of an earlier command has reached the disk (the KV runs without
+// write-ahead log, so smaller ones vanish when it is closed): the next build must still start from an empty KV,
+// or it takes the old keys for already indexed and leaves them out of the new index.
+func TestRegressReusedWorkDirBigIndex(t *testing.T) {
+	blocks := func(from, n int) []int {
+		out := make([]int, n)
+		for i := range out {
+			out[i] = from + i
+		}
+		return out
+	}
+	big := func(repo int, from int) purgex.Op {
+		return purgex.Op{Kind: purgex.OpUpload, Repo: repo, Leaf: 128, Files: []purgex.File{
+			{Path: "big", C: purgex.Content{Blocks: blocks(from, 20000), Tail: 5, TSeed: from}},
+			{Path: "small", C: purgex.Content{Blocks: []int{from, from + 1}}},
+		}}
+	}
+	// 2 x 20000 distinct leaves: 40000+ keys. Then a small bundle goes away, another arrives, and the index is rebuilt
+	ops := []purgex.Op{big(0, 100), big(1, 50000), {Kind: purgex.OpUpload, Repo: 1, Leaf: 128, Files: []purgex.File{file("gone", 9, 1)}}}
+	for _, drop := range []bool{false, true} {
+		pinned(t, "", "", caseT{
+			Shape: purgex.Shape{Repos: []int{2}, Leaves: []uint32{128}},
+			Pre:   ops, Chunk: 7000, Parallel: 4, SameDir: true,
+			Between: []purgex.Op{{Kind: purgex.OpDelBundle, Repo: 1, Pick: 1}},
+			Cycle2:  &cycleT{Ops: []purgex.Op{{Kind: purgex.OpUpload, Repo: 1, Leaf: 128, Files: []purgex.File{file("late", 9, 1)}}}, Chunk: 9000, Drop: drop},
+		})
+	}
+}
